@@ -153,6 +153,50 @@ pub fn write_evidence(p: &Progress) {
     let _ = std::fs::rename(&tmp, &path);
 }
 
+/// Executions in progress, per worker thread (for the watchdog).
+pub static IN_FLIGHT: Mutex<Vec<(std::thread::ThreadId, String, Vec<u32>, Instant)>> = Mutex::new(Vec::new());
+
+pub fn enter_exec(unit: &str, prefix: &[u32]) {
+    let id = std::thread::current().id();
+    let mut g = IN_FLIGHT.lock().unwrap();
+    g.retain(|e| e.0 != id);
+    g.push((id, unit.to_string(), prefix.to_vec(), Instant::now()));
+}
+
+pub fn leave_exec() {
+    let id = std::thread::current().id();
+    IN_FLIGHT.lock().unwrap().retain(|e| e.0 != id);
+}
+
+/// A single execution that runs for longer than this is a step that never returns (an unbounded loop inside one
+/// poll): the explorer cannot preempt it, so a watchdog reports it as a violation of the property being checked.
+pub const EXEC_WALL_LIMIT_S: u64 = 120;
+
+pub fn start_watchdog() {
+    std::thread::spawn(|| loop {
+        std::thread::sleep(std::time::Duration::from_secs(1));
+        let stuck = IN_FLIGHT.lock().unwrap().iter().find(|e| e.3.elapsed().as_secs() > EXEC_WALL_LIMIT_S).cloned();
+        if let Some((_, unit, prefix, _)) = stuck {
+            stuck_report(&unit, &prefix);
+        }
+    });
+}
+
+fn stuck_report(unit: &str, prefix: &[u32]) {
+    let mut guard = PROGRESS.lock().unwrap();
+    if let Some(p) = guard.as_mut() {
+        let sig = "hang/step-never-returns".to_string();
+        let detail = format!("one execution has been running for more than {} s of wall-clock time: a poll of some task loops without ever yielding", EXEC_WALL_LIMIT_S);
+        let path = write_replay(&p.prop, unit, &sig, &detail, json!({"choices": prefix}));
+        p.violations += 1;
+        p.exhaustive = false;
+        write_evidence(p);
+        println!("VIOLATION property={} replay={}", p.prop, path);
+        println!("  unit={} sig={} detail={}", unit, sig, detail);
+        std::process::exit(1);
+    }
+}
+
 /// Called from the panic hook for non-unwinding panics (process is about to abort).
 pub fn abort_report(msg: &str) {
     let cur = crate::world::CURRENT_EXEC.with(|c| c.borrow().clone());
@@ -215,6 +259,7 @@ pub fn run_property(prop: &str, tier: &str, units: Vec<Unit>, threads: usize, on
         caps: vec![],
         current_unit: String::new(),
     });
+    start_watchdog();
     let mut exit = 0;
     let mut printed_known: std::collections::BTreeSet<String> = Default::default();
     for u in units {
